@@ -477,6 +477,10 @@ UNIT = Unit(
                 "frame_start(final(term)@, final(bar_count).0 as int) == frame_start(old(term)@, old(bar_count).0 as int) + hts(old(self).lines@, old(term)@.w, tc(old(self).lines@)) * old(term)@.w"),
            ],
            findings=[
+               ("C19-clipped-frame-cursor-rest",
+                "res.is_ok() && old(self).alignment is Top && layout_pre(*old(self), old(term)@, old(bar_count).0 as int) && !first_line_hazard(*old(self), old(term)@, old(bar_count).0 as int) "
+                "&& stop(old(self).lines@, old(term)@.w, old(term)@.h, 0) > 0 ==> final(term)@.col == old(term)@.w",
+                ["C19", "C01", "C04", "C02"], "a frame cut at the terminal height ends without the filler: the cursor stays right behind the last painted line instead of at the end of its row"),
                ("C03-frame-in-cursor-moving-mode",
                 "res.is_ok() ==> forall|p: int| p < frame_start(old(term)@, old(bar_count).0 as int) ==> (#[trigger] (final(term)@.cells)(p)) == (old(term)@.cells)(p)",
                 ["C03"], "in cursor-moving mode with no rows painted before, the carriage return lands on the line above the region"),
